@@ -50,6 +50,9 @@ type Safety struct {
 	acks     []ackRec // acknowledged writes in return order
 	reads    []readRec
 	okWrites map[int]ClientInfo
+	lastStatus        map[string]StatusInfo
+	memberPending     map[int]*memberReq
+	memberAwaitAppend map[string]int
 	memberOK []*Event
 
 	// snapshots
@@ -85,6 +88,17 @@ type electRec struct {
 	node string
 	term uint64
 	seq  int
+}
+
+type memberReq struct {
+	node      string
+	term      uint64
+	leader    bool
+	invokeSeq int
+	deadline  int64
+	index     uint64 // index of the configuration entry it appended
+	lost      bool   // the submitter was seen in another state or term afterwards
+	committed bool   // the entry was seen committed at the submitter while it was still leader, before the deadline
 }
 
 type replyRec struct {
@@ -143,6 +157,7 @@ func NewSafety() *Safety {
 		sets: map[string][]setRec{}, delSeq: map[int]int{}, replies: map[string][]replyRec{}, confs: map[string]*ConfInfo{}, confHist: map[string][]*ConfInfo{}, grants: map[string]map[string]bool{},
 		rvReal: map[string]int{}, rvPre: map[string]int{}, incStatus: map[string]StatusInfo{},
 		openRecv: map[string]*recvFile{}, mixedFiles: map[int]string{}, inflightIS: map[string]map[int]*MsgInfo{},
+		lastStatus: map[string]StatusInfo{}, memberPending: map[int]*memberReq{}, memberAwaitAppend: map[string]int{},
 		invokes: map[int]*Event{}, okWrites: map[int]ClientInfo{}, localSnaps: map[string]bool{}, seen: map[string]bool{},
 	}
 }
@@ -253,8 +268,24 @@ func (s *Safety) On(e *Event) []Violation {
 			}
 			s.grants[k][e.Msg.Dst] = true
 		}
+	case "api":
+		a := e.Api
+		if a.Panic != "" {
+			s.v("C18", "C18/panic", fmt.Sprintf("%s(%s) on %s in state %s panicked: %s", a.Call, a.Args, e.Node, a.State, a.Panic), e.Seq)
+		}
+		if a.Bound > 0 && a.DurUs > a.Bound {
+			s.v("C18", "C18/call-blocked", fmt.Sprintf("%s(%s) on %s in state %s took %dus of virtual time (bound %dus)", a.Call, a.Args, e.Node, a.State, a.DurUs, a.Bound), e.Seq)
+		}
+		if a.Call == "Future.Await(again)" && a.Err != "" {
+			s.v("C18", "C18/await-not-idempotent", fmt.Sprintf("%s on %s: %s", a.Call, e.Node, a.Err), e.Seq)
+		}
 	case "invoke":
 		s.invokes[e.Client.Op] = e
+		if e.Client.Type == "add" || e.Client.Type == "remove" {
+			st := s.lastStatus[e.Node]
+			s.memberPending[e.Client.Op] = &memberReq{node: e.Node, term: st.Term, leader: st.State == "leader", invokeSeq: e.Seq, deadline: e.VT + e.Client.Timeout*1e6}
+			s.memberAwaitAppend[e.Node] = e.Client.Op
+		}
 	case "return":
 		s.onReturn(e)
 	case "disk":
@@ -288,6 +319,11 @@ func (s *Safety) On(e *Event) []Violation {
 		s.onSnapFile(e)
 	case "action":
 		s.logMatching(e.Seq)
+	case "fault":
+		if e.Fault.What == "start" {
+			// a restart of the same instance also starts a new life: commit/applied index are volatile
+			delete(s.incStatus, fmt.Sprintf("%s/%d", e.Node, e.Inc))
+		}
 	}
 	return s.take()
 }
@@ -318,6 +354,12 @@ func (s *Safety) onStorage(e *Event) {
 	case "snap.write":
 		return
 	case "log.append":
+		if op, ok := s.memberAwaitAppend[e.Node]; ok && (st.Ctx == "AddServer" || st.Ctx == "RemoveServer") && len(st.Ents) == 1 {
+			if m := s.memberPending[op]; m != nil && m.index == 0 {
+				m.index = st.Ents[0].I
+			}
+			delete(s.memberAwaitAppend, e.Node)
+		}
 		for _, en := range st.Ents {
 			li, _ := l.last()
 			if en.I != li+1 {
@@ -426,6 +468,17 @@ func (s *Safety) onStorage(e *Event) {
 
 func (s *Safety) onStatus(e *Event) {
 	st := e.Status
+	s.lastStatus[e.Node] = *st
+	for _, m := range s.memberPending {
+		if m.node != e.Node || m.lost || m.committed {
+			continue
+		}
+		if st.State != "leader" || st.Term != m.term {
+			m.lost = true
+		} else if m.index > 0 && st.Commit >= m.index && e.VT < m.deadline-5e6 {
+			m.committed = true
+		}
+	}
 	s.noteTerm(e.Node, st.Term, e.Seq, "Status()")
 	key := fmt.Sprintf("%s/%d", e.Node, e.Inc)
 	if old, ok := s.incStatus[key]; ok {
@@ -707,6 +760,12 @@ func (s *Safety) onSnapFile(e *Event) {
 
 func (s *Safety) onReturn(e *Event) {
 	c := e.Client
+	if m := s.memberPending[c.Op]; m != nil {
+		if m.leader && m.committed && !m.lost && c.Outcome != "ok" && c.Outcome != "indeterminate" {
+			s.v("C18", "C18/membership-future-not-resolved", fmt.Sprintf("%s(%s) submitted to leader %s appended configuration entry %d, which was committed while %s was still leader of term %d and before the future's timeout, yet the future resolved with %q", c.Type, c.Arg, m.node, m.index, m.node, m.term, c.Outcome), m.invokeSeq, e.Seq)
+		}
+		delete(s.memberPending, c.Op)
+	}
 	if c.Outcome != "ok" {
 		return
 	}
